@@ -105,7 +105,7 @@ def hop_sqlalchemy(ir, variant="sqlalchemy", style="rest", force_pk_id=False, **
             cls = ast.parse(text).body[0]
             # the hybrid parser of the pinned tree rejects its own emission (known finding of C05); read its __table__
             tbl = next(s for s in cls.body if isinstance(s, ast.Assign) and any(isinstance(t, ast.Name) and t.id == "__table__" for t in s.targets))
-            back = cdd.sqlalchemy.parse.sqlalchemy_table(tbl)
+            back = cdd.sqlalchemy.parse.sqlalchemy_table(tbl.value)
     return back, text
 
 
